@@ -1,6 +1,6 @@
 (** Non-vacuity for C11_frag: programs of the fragment, by computation. *)
 From Coq Require Import NArith List.
-From FF Require Import Aml.Grammar Aml.WfProgram Aml.ParserFragF0Final Aml.ParserFragF1Final Aml.ParserFragF3Final Aml.ParserFragF4Final Aml.ParserFragF5Final Aml.ParserFragT2Final Props.C11_frag.
+From FF Require Import Aml.Grammar Aml.WfProgram Aml.ParserFragF0Final Aml.ParserFragF1Final Aml.ParserFragF3Final Aml.ParserFragF4Final Aml.ParserFragF5Final Aml.ParserFragF6Final Aml.ParserFragT2Final Props.C11_frag.
 Import ListNotations.
 Local Open Scope N_scope.
 
@@ -216,4 +216,34 @@ Example C11_fragment_T2_excludes :
   in_fragment_T2 [[]; []; []] = false /\
   in_fragment_T2 [[AScope 1 (mkName true 0 false [seg4 0x5f 0x53 0x42 0x5f]) []]; []] = false /\
   in_fragment_T2 [[ADevice 1 (f0_nm 0x44 0x45 0x56 0x30) []]; [AScope 1 (f0_nm 0x44 0x45 0x56 0x30) []]] = false.
+Proof. vm_compute. repeat split. Qed.
+
+(** ---- F6: Name declarations with string values (also the empty string, also inside Scope / Device / Method) ---- *)
+Definition f6_program : list (list ast) :=
+  [[AName (f0_nm 0x5f 0x48 0x49 0x44) (AStr [0x50; 0x4e; 0x50; 0x30; 0x41; 0x30; 0x33]);
+    AName (f0_nm 0x45 0x4d 0x50 0x54) (AStr []);
+    AScope 1 (mkName true 0 false [seg4 0x5f 0x53 0x42 0x5f])
+      [ADevice 1 (f0_nm 0x44 0x45 0x56 0x30)
+         [AName (f0_nm 0x5f 0x48 0x49 0x44) (AStr [0x41; 0x43; 0x50; 0x49; 0x30; 0x30; 0x30; 0x33]);
+          AName (f0_nm 0x5f 0x55 0x49 0x44) (AConst OP_BYTE 1);
+          AMethod 1 (f0_nm 0x4d 0x54 0x48 0x30) 0 [AName (f0_nm 0x53 0x54 0x52 0x30) (AStr [0x7f; 0x01; 0x20])]]];
+    AName (f0_nm 0x5a 0x5a 0x5a 0x5a) (AConst 0x00 0)]].
+
+Example C11_parse_encode_partial_F6_nonvacuous :
+  wf_program f6_program = true /\ in_fragment_F6 f6_program = true /\ in_fragment_F5 f6_program = false /\
+  in_fragment_F6 f5_program = true /\ in_fragment_F6 f4_program = true /\ in_fragment_F6 f0_program = true.
+Proof. vm_compute. repeat split. Qed.
+
+Example C11_parse_encode_partial_F6_instance : parse_encode_statement f6_program.
+Proof. apply C11_parse_encode_partial_F6; vm_compute; reflexivity. Qed.
+
+Example C11_parse_encode_partial_F6_run : parse_program f6_program = (0, ns f6_program) /\ length (ns f6_program) = 8%nat.
+Proof. vm_compute. split; reflexivity. Qed.
+
+(** outside F6: Buffer and Package values, a root-prefixed name; a string with a byte above 0x7f is not well formed *)
+Example C11_fragment_F6_excludes :
+  in_fragment_F6 [[AName (f0_nm 0x42 0x55 0x46 0x30) (ABuffer 1 (AConst OP_BYTE 2) [1; 2])]] = false /\
+  in_fragment_F6 [[AName (f0_nm 0x50 0x4b 0x47 0x30) (APackage 1 1 [AConst 1 0])]] = false /\
+  in_fragment_F6 [[AName (mkName true 0 false [seg4 0x53 0x54 0x52 0x30]) (AStr [0x41])]] = false /\
+  wf_program [[AName (f0_nm 0x53 0x54 0x52 0x30) (AStr [0x80])]] = false.
 Proof. vm_compute. repeat split. Qed.
